@@ -121,6 +121,7 @@ type RowID struct {
 	BNum         uint64
 	Key, Val     int
 	Ghost        uint64 `json:"-"` // fakepg row identity (insert order); not part of the case
+	Null         string `json:"-"` // which of src_name / ig_name / block_num are NULL in the row ("" = none)
 }
 
 type DbView struct {
@@ -383,6 +384,11 @@ func (r *Recorder) rowID(table string, cols []string, vals []fakepg.Value) RowID
 	rw := RowID{Tbl: r.names.TblID(table), Src: r.names.SrcID(nameOf(src)), IG: r.names.IGID(nameOf(ig)),
 		Key: r.names.KeyID(key), Val: r.names.ValID(val)}
 	rw.BNum, _ = fakepg.Uint64(bn)
+	for _, c := range []string{"src_name", "ig_name", "block_num"} {
+		if get(c) == nil {
+			rw.Null += " " + c
+		}
+	}
 	return rw
 }
 
